@@ -272,6 +272,22 @@ def partPositions : Obj → List Pt
   | .feature b _ => partPositions b
   | .coll _ cs _ _ => (cs.attach.map (fun ⟨c, _⟩ => partPositions c)).flatten
 
+/-- every position of every part, whether the part occupies space or not (the validity clause of
+    C11 speaks of "every position") -/
+def allPositions : Obj → List Pt
+  | .point p _ => [p.p]
+  | .spoint p => [p.p]
+  | .lineString _ ps _ => ps.map (·.p)
+  | .polygon _ rs _ => (rs.map (·.map (·.p))).flatten
+  | .rectO b _ _ => [b.min, b.max]
+  | .circle _ _ => []
+  | .feature b _ => allPositions b
+  | .coll _ cs _ _ => (cs.attach.map (fun ⟨c, _⟩ => allPositions c)).flatten
+
+/-- some part that occupies no space carries an out-of-range position (known finding D21) -/
+def emptyPartInvalid (o : Obj) : Bool :=
+  (partPositions o).all Pt.valid && !(allPositions o).all Pt.valid
+
 /-- some polygon has a hole position outside its exterior ring's box (known finding D15) -/
 def holeOut : Obj → Bool
   | .polygon p rs _ =>
@@ -295,7 +311,7 @@ def attrsSpec (o : Obj) : String :=
   let emp := match o with
     | .rectO _ _ _ => false
     | _ => ps.isEmpty
-  s!"{b2s emp}{b2s (ps.all Pt.valid)} {ratS bb.min.x},{ratS bb.min.y},{ratS bb.max.x},{ratS bb.max.y} {ratS c.x},{ratS c.y} -"
+  s!"{b2s emp}{b2s ((allPositions o).all Pt.valid)} {ratS bb.min.x},{ratS bb.min.y},{ratS bb.max.x},{ratS bb.max.y} {ratS c.x},{ratS c.y} -"
 
 def isLeafDeep : Obj → Bool
   | .coll _ _ _ _ => false
@@ -472,7 +488,7 @@ def stepW (w : World) (line : String) : World × String :=
   | ["oattrs", id] =>
     match w.o[id]? with
     | none => (w, "noobj")
-    | some ob => if planar ob then (w, s!"{attrsS ob} | {attrsSpec ob} | oa:{kindName ob}{if holeOut ob then ":holeout" else ""}") else (w, "unmodelled | - | pu")
+    | some ob => if planar ob then (w, s!"{attrsS ob} | {attrsSpec ob} | oa:{kindName ob}{if holeOut ob then ":holeout" else ""}{if emptyPartInvalid ob then ":emptyinvalid" else ""}") else (w, "unmodelled | - | pu")
   | ["opred", a, b] =>
     match w.o[a]?, w.o[b]? with
     | some x, some y =>
